@@ -12,8 +12,9 @@ RULE = ('(a) every list of 1..L directive spellings (L=3 quick over 33 spellings
         'a , DQUOTE backslash SP = as the argument of private= and no-cache=. Each header is parsed by HttpHdrCc::parse and '
         'compared per known directive with a reference RFC 9111 directive parser, then packed by packInto and parsed again. '
         'non-trivial = cases in which at least one header carried a known directive with a valid or an invalid value')
-ASSUME = ['HttpHdrCc.cc is recompiled from the scratch copy of the current tree with -fsanitize=address,undefined; StrList.cc, '
-          'HttpHeaderTools.cc and HttpHeader.cc are the ASan objects of the testHttpReply link set',
+ASSUME = ['HttpHdrCc.cc, HttpHeader.cc (httpHeaderParseQuotedString), HttpHeaderTools.cc (httpHeaderParseInt) and StrList.cc are '
+          'recompiled from the scratch copy of the current tree with -fsanitize=address,undefined and linked instead of the objects '
+          'of the testHttpReply link set',
           'lenient syntax is not judged: a quoted number (max-age="5"), a sign or white space before the number, an argument on a '
           'flag directive, an unquoted argument of private/no-cache, white space around "="; for those only "never negative" and '
           'accessor/mask consistency are asserted',
@@ -25,8 +26,12 @@ NONTRIVIAL = ['valid-known-directives', 'valid+invalid-values', 'only-invalid-va
 
 
 def _build(ctx):
-    return seq.build(ctx, 'tests/testHttpReply', ['C29_cc.cc'], drop_objects=[r'^HttpHdrCc\.o$'],
-                     tree_sources=['HttpHdrCc.cc'], tree_flags=['-fsanitize=undefined', '-fno-sanitize-recover=undefined'])
+    # all four files the property is about are recompiled from the current source on every run (their
+    # objects in the scratch tree were once found stale after a fix commit: rsync kept the commit's mtime)
+    return seq.build(ctx, 'tests/testHttpReply', ['C29_cc.cc'],
+                     drop_objects=[r'^HttpHdrCc\.o$', r'^HttpHeader\.o$', r'^HttpHeaderTools\.o$', r'^StrList\.o$'],
+                     tree_sources=['HttpHdrCc.cc', 'HttpHeader.cc', 'HttpHeaderTools.cc', 'StrList.cc'],
+                     tree_flags=['-fsanitize=undefined', '-fno-sanitize-recover=undefined'])
 
 
 def run(ctx):
